@@ -6,6 +6,7 @@ package main
 
 import (
 	"fmt"
+	"math"
 	"go/token"
 	"go/types"
 	"regexp"
@@ -1797,6 +1798,57 @@ func registerMisc() {
 	}
 	I["github.com/cespare/xxhash/v2.Sum64String"] = func(in *Interp, fr *frame, fn *ssa.Function, a []value) value {
 		return in.tc.Const(64, xxhash.Sum64String(in.mustStr(a[0], "xxhash.Sum64String")))
+	}
+	// math on concrete floats
+	f1 := func(name string, f func(float64) float64) {
+		I["math."+name] = func(in *Interp, fr *frame, fn *ssa.Function, a []value) value {
+			x := a[0].(Float)
+			return Float{v: f(x.v), opaque: x.opaque}
+		}
+	}
+	f1("Log", math.Log)
+	f1("Log10", math.Log10)
+	f1("Log2", math.Log2)
+	f1("Exp", math.Exp)
+	f1("Sqrt", math.Sqrt)
+	f1("Floor", math.Floor)
+	f1("Ceil", math.Ceil)
+	f1("Trunc", math.Trunc)
+	f1("Round", math.Round)
+	f1("Abs", math.Abs)
+	I["math.Pow"] = func(in *Interp, fr *frame, fn *ssa.Function, a []value) value {
+		x, y := a[0].(Float), a[1].(Float)
+		return Float{v: math.Pow(x.v, y.v), opaque: x.opaque || y.opaque}
+	}
+	I["math.Mod"] = func(in *Interp, fr *frame, fn *ssa.Function, a []value) value {
+		x, y := a[0].(Float), a[1].(Float)
+		return Float{v: math.Mod(x.v, y.v), opaque: x.opaque || y.opaque}
+	}
+	I["math.Inf"] = func(in *Interp, fr *frame, fn *ssa.Function, a []value) value {
+		s, _ := cint(a[0])
+		return Float{v: math.Inf(int(s))}
+	}
+	I["math.NaN"] = func(in *Interp, fr *frame, fn *ssa.Function, a []value) value { return Float{v: math.NaN()} }
+	I["math.IsNaN"] = func(in *Interp, fr *frame, fn *ssa.Function, a []value) value {
+		return in.tc.Bool(math.IsNaN(a[0].(Float).v))
+	}
+	I["math.IsInf"] = func(in *Interp, fr *frame, fn *ssa.Function, a []value) value {
+		s, _ := cint(a[1])
+		return in.tc.Bool(math.IsInf(a[0].(Float).v, int(s)))
+	}
+	I["math.Float64bits"] = func(in *Interp, fr *frame, fn *ssa.Function, a []value) value {
+		x := a[0].(Float)
+		if x.opaque {
+			return in.tc.Fresh("fbits", 64)
+		}
+		return in.tc.Const(64, math.Float64bits(x.v))
+	}
+	I["math.Float64frombits"] = func(in *Interp, fr *frame, fn *ssa.Function, a []value) value {
+		t := a[0].(*Term)
+		if !t.IsConst() {
+			return Float{opaque: true}
+		}
+		return Float{v: math.Float64frombits(t.c)}
 	}
 	I["math/rand.Int63"] = func(in *Interp, fr *frame, fn *ssa.Function, a []value) value {
 		in.uuidSeq++
